@@ -62,8 +62,10 @@ package main
 //     src_<pkg>_<var> in source order (Go rejects duplicate constant keys).
 //   * local variables and parameters are named v_<name>[_<version>]: an assignment is a
 //     new let.  Everything else the translator binds lives in other name spaces (val_*, uni_*,
-//     f_*, o<n>, V), so no Go name can capture it.  Control flow is translated by continuation: `if c { A }; rest` becomes
-//     `if c then [A; rest] else [rest]`.
+//     f_*, m_*, fld_*, o<n>, V), so no Go name can capture it.  Control flow is translated by continuation: `if c { A }; rest`
+//     becomes `if c then [A; rest] else [rest]` when a branch can leave (return, break, continue, panic); when no branch
+//     can, the if is an expression whose value is the tuple of the variables its branches assign, and rest follows once:
+//     `let '(x, y) := (if c then [A; (x', y')] else (x, y)) in [rest]` (go_bind instead of let when A can panic).
 //
 // LOOPS
 //   A loop becomes a top-level Fixpoint <function>_loop<k> (k = number of the loop in source
